@@ -49,6 +49,8 @@ type Frame struct {
 	curBlock *ssa.BasicBlock
 	noSafety bool
 	nilSeen  map[*ssa.BasicBlock]map[Term]bool
+	rets     []retInfo
+	done     map[*ssa.BasicBlock]bool
 }
 
 type loopInfo struct {
@@ -461,9 +463,12 @@ func (vc *VC) run(fn *ssa.Function, args []Val, freeVars []Val, st *State, reach
 	fr.entry = st.clone()
 	fr.findLoops()
 
-	var rets []retInfo
 	ord := fr.order()
+	fr.done = map[*ssa.BasicBlock]bool{}
 	for _, b := range ord {
+		if fr.done[b] {
+			continue
+		}
 		fr.curBlock = b
 		var cur *State
 		var rch Term
@@ -471,81 +476,22 @@ func (vc *VC) run(fn *ssa.Function, args []Val, freeVars []Val, st *State, reach
 		if b == fn.Blocks[0] {
 			cur, rch = st.clone(), reach
 		} else {
-			var conds []Term
-			var sts []*State
-			var preds []*ssa.BasicBlock
-			for _, p := range b.Preds {
-				if backEdge(p, b) {
-					continue
-				}
-				if _, ok := fr.reach[p]; !ok {
-					continue // unreachable predecessor (e.g. after panic)
-				}
-				c := fr.edge(p, b)
-				conds = append(conds, c)
-				sts = append(sts, fr.exit[p])
-				preds = append(preds, p)
-			}
-			if len(conds) == 0 {
-				continue
-			}
-			rch = vc.define("reach", "Bool", or(conds...))
-			cur = vc.merge(conds, sts)
-			// phis (forward part)
-			for _, ins := range b.Instrs {
-				phi, ok := ins.(*ssa.Phi)
-				if !ok {
-					break
-				}
-				fr.vals[phi] = fr.phiValue(phi, b, preds, conds)
+			var ok bool
+			cur, rch, ok = fr.blockEntry(b)
+			if !ok || rch == "false" {
+				continue // statically unreachable (e.g. the 32-bit branches)
 			}
 		}
 		if li != nil {
-			cur = fr.enterLoop(li, cur, rch)
-		}
-		fr.reach[b] = rch
-		alive := true
-		for _, ins := range b.Instrs {
-			if _, ok := ins.(*ssa.Phi); ok {
+			if n := fr.unrollBound(li); n > 0 {
+				fr.unroll(li, cur, rch, n, ord)
 				continue
 			}
-			switch x := ins.(type) {
-			case *ssa.Return:
-				var rv Val
-				rv.T = fn.Signature.Results()
-				for _, r := range x.Results {
-					rv.C = append(rv.C, fr.value(r).C...)
-				}
-				rets = append(rets, retInfo{rch, rv, cur})
-				if fr.top && fr.contract != nil {
-					fr.checkEnsuresAt(x, rv, cur, rch)
-				}
-				alive = false
-			case *ssa.Panic:
-				if !fr.noSafety {
-					vc.oblige("panic", fr.siteOf(x, "panic"), rch, "false", fr.safetyProps(), !fr.top, vc.pos(x.Pos()))
-				}
-				alive = false
-			case *ssa.If, *ssa.Jump:
-			default:
-				fr.exec(ins, cur, rch)
-			}
-			if !alive {
-				break
-			}
+			cur = fr.enterLoop(li, cur, rch)
 		}
-		if alive {
-			fr.exit[b] = cur
-			// back edges out of this block
-			for _, s := range b.Succs {
-				if backEdge(b, s) {
-					fr.backEdge(fr.loopHead[s], b, cur)
-				}
-			}
-		} else {
-			delete(fr.reach, b)
-		}
+		fr.execBody(b, cur, rch, true)
 	}
+	rets := fr.rets
 	// merge returns
 	if len(rets) == 0 {
 		return Val{T: fn.Signature.Results()}, st, "false"
@@ -1069,5 +1015,274 @@ func (vc *VC) havocGhostSet(st *State, names []string) {
 			continue
 		}
 		vc.havocGhost(st, g)
+	}
+}
+
+// blockEntry merges the states of the forward predecessors of b and evaluates
+// its φ-nodes.
+func (fr *Frame) blockEntry(b *ssa.BasicBlock) (*State, Term, bool) {
+	vc := fr.vc
+	var conds []Term
+	var sts []*State
+	var preds []*ssa.BasicBlock
+	for _, p := range b.Preds {
+		if backEdge(p, b) {
+			continue
+		}
+		if _, ok := fr.reach[p]; !ok {
+			continue // unreachable predecessor (e.g. after panic)
+		}
+		c := fr.edge(p, b)
+		conds = append(conds, c)
+		sts = append(sts, fr.exit[p])
+		preds = append(preds, p)
+	}
+	if len(conds) == 0 {
+		return nil, "", false
+	}
+	rch := vc.define("reach", "Bool", or(conds...))
+	cur := vc.merge(conds, sts)
+	for _, ins := range b.Instrs {
+		phi, ok := ins.(*ssa.Phi)
+		if !ok {
+			break
+		}
+		fr.vals[phi] = fr.phiValue(phi, b, preds, conds)
+	}
+	return cur, rch, true
+}
+
+// execBody executes the non-φ instructions of b.
+func (fr *Frame) execBody(b *ssa.BasicBlock, cur *State, rch Term, backEdges bool) {
+	vc := fr.vc
+	fn := fr.fn
+	fr.reach[b] = rch
+	alive := true
+	for _, ins := range b.Instrs {
+		if _, ok := ins.(*ssa.Phi); ok {
+			continue
+		}
+		switch x := ins.(type) {
+		case *ssa.Return:
+			var rv Val
+			rv.T = fn.Signature.Results()
+			for _, r := range x.Results {
+				rv.C = append(rv.C, fr.value(r).C...)
+			}
+			fr.rets = append(fr.rets, retInfo{rch, rv, cur})
+			if fr.top && fr.contract != nil {
+				fr.checkEnsuresAt(x, rv, cur, rch)
+			}
+			alive = false
+		case *ssa.Panic:
+			if !fr.noSafety {
+				vc.oblige("panic", fr.siteOf(x, "panic"), rch, "false", fr.safetyProps(), !fr.top, vc.pos(x.Pos()))
+			}
+			alive = false
+		case *ssa.If, *ssa.Jump:
+		default:
+			fr.exec(ins, cur, rch)
+		}
+		if !alive {
+			break
+		}
+	}
+	if alive {
+		fr.exit[b] = cur
+		if backEdges {
+			for _, s := range b.Succs {
+				if backEdge(b, s) {
+					fr.backEdge(fr.loopHead[s], b, cur)
+				}
+			}
+		}
+	} else {
+		delete(fr.reach, b)
+	}
+}
+
+func (fr *Frame) unrollBound(li *loopInfo) int {
+	if fr.contract == nil {
+		return 0
+	}
+	for _, cl := range fr.contract.Clauses {
+		if (cl.Loop == li.ord || cl.Loop == -1) && cl.Kind == "unroll" {
+			return cl.Unroll
+		}
+	}
+	return 0
+}
+
+// unroll executes a loop whose trip count is bounded by a constant n times and
+// adds an unwinding assertion (complete, not a bounded check): after n
+// iterations the back edge must be infeasible.
+func (fr *Frame) unroll(li *loopInfo, cur *State, rch Term, n int, ord []*ssa.BasicBlock) {
+	vc := fr.vc
+	head := li.head
+	var blocks []*ssa.BasicBlock
+	for _, b := range ord {
+		if li.blocks[b] {
+			blocks = append(blocks, b)
+			fr.done[b] = true
+			if b != head && fr.loopHead[b] != nil {
+				unsup("nested loop inside an unrolled loop")
+			}
+		}
+	}
+	// values defined in the loop and used after it
+	var liveOut []ssa.Value
+	for _, b := range blocks {
+		for _, ins := range b.Instrs {
+			v, ok := ins.(ssa.Value)
+			if !ok || v.Referrers() == nil {
+				continue
+			}
+			for _, r := range *v.Referrers() {
+				if r.Block() != nil && !li.blocks[r.Block()] {
+					liveOut = append(liveOut, v)
+					break
+				}
+			}
+		}
+	}
+	type exitRec struct {
+		cond Term
+		st   *State
+	}
+	exitConds := map[[2]int][]Term{}       // exit edge -> per-iteration conditions
+	blockExit := map[*ssa.BasicBlock][]exitRec{} // block with exit edges -> per-iteration (taken, state)
+	var iterExit []Term                    // per iteration: some exit edge taken
+	liveVals := map[ssa.Value][]Val{}
+	var phis []*ssa.Phi
+	for _, ins := range head.Instrs {
+		if phi, ok := ins.(*ssa.Phi); ok {
+			phis = append(phis, phi)
+		} else {
+			break
+		}
+	}
+	for k := 0; ; k++ {
+		if k == n {
+			// unwinding assertion
+			vc.oblige("unwind", fmt.Sprintf("loop%d:at most %d iterations", li.ord, n), "true", not(rch), fr.props, !fr.top, vc.pos(head.Instrs[0].Pos()))
+			break
+		}
+		for _, b := range blocks {
+			fr.curBlock = b
+			if b == head {
+				fr.execBody(b, cur, rch, false)
+				continue
+			}
+			c, r, ok := fr.blockEntry(b)
+			if !ok || r == "false" {
+				continue
+			}
+			fr.execBody(b, c, r, false)
+		}
+		// collect exits and back edges of this iteration
+		var anyExit []Term
+		var backConds []Term
+		var backSts []*State
+		var backFrom []*ssa.BasicBlock
+		for _, b := range blocks {
+			if _, ok := fr.reach[b]; !ok {
+				continue
+			}
+			var taken []Term
+			for _, s := range b.Succs {
+				if li.blocks[s] {
+					if s == head {
+						backConds = append(backConds, fr.edge(b, s))
+						backSts = append(backSts, fr.exit[b])
+						backFrom = append(backFrom, b)
+					}
+					continue
+				}
+				c := fr.edge(b, s)
+				key := [2]int{b.Index, s.Index}
+				exitConds[key] = append(exitConds[key], c)
+				taken = append(taken, c)
+			}
+			if len(taken) > 0 {
+				t := vc.define("exit", "Bool", or(taken...))
+				blockExit[b] = append(blockExit[b], exitRec{t, fr.exit[b]})
+				anyExit = append(anyExit, t)
+			}
+		}
+		ie := vc.define("iterexit", "Bool", or(anyExit...))
+		iterExit = append(iterExit, ie)
+		for _, v := range liveOut {
+			if val, ok := fr.vals[v]; ok {
+				liveVals[v] = append(liveVals[v], val)
+			} else {
+				liveVals[v] = append(liveVals[v], Val{})
+			}
+		}
+		// next iteration's header state
+		if len(backConds) == 0 {
+			rch = "false"
+		} else {
+			rch = vc.define("reach", "Bool", or(backConds...))
+			cur = vc.merge(backConds, backSts)
+			newPhi := map[*ssa.Phi]Val{}
+			for _, phi := range phis {
+				var vals []Val
+				for _, from := range backFrom {
+					for i, bp := range head.Preds {
+						if bp == from {
+							vals = append(vals, fr.value(phi.Edges[i]))
+							break
+						}
+					}
+				}
+				newPhi[phi] = fr.mergeVals(phi.Type(), vals, backConds, phi.Name())
+			}
+			for phi, v := range newPhi {
+				fr.vals[phi] = v
+			}
+		}
+		// forget this iteration's block bookkeeping
+		for _, b := range blocks {
+			delete(fr.reach, b)
+			delete(fr.exit, b)
+			for _, s := range b.Succs {
+				delete(fr.edgeCond, [2]int{b.Index, s.Index})
+			}
+		}
+		if rch == "false" {
+			break
+		}
+	}
+	if fr.top {
+		vc.caseGroups = append(vc.caseGroups, caseGroup{conds: iterExit, nAssert: len(vc.asserts)})
+	}
+	// publish merged exits for the blocks after the loop
+	for b, recs := range blockExit {
+		var conds []Term
+		var sts []*State
+		for _, r := range recs {
+			conds = append(conds, r.cond)
+			sts = append(sts, r.st)
+		}
+		fr.reach[b] = vc.define("reach", "Bool", or(conds...))
+		fr.exit[b] = vc.merge(conds, sts)
+	}
+	for key, cs := range exitConds {
+		fr.edgeCond[key] = vc.define("edge", "Bool", or(cs...))
+	}
+	for _, v := range liveOut {
+		vals := liveVals[v]
+		var vs []Val
+		var cs []Term
+		for k, val := range vals {
+			if val.T == nil && len(val.C) == 0 {
+				continue
+			}
+			vs = append(vs, val)
+			cs = append(cs, iterExit[k])
+		}
+		if len(vs) > 0 {
+			fr.vals[v] = fr.mergeVals(v.Type(), vs, cs, v.Name())
+		}
 	}
 }
